@@ -2,6 +2,7 @@
 """Print the markdown table of confirmed seeded changes (DESIGN.md section 10) from seeded/*/meta.json."""
 import glob, json, os
 root = os.path.dirname(os.path.dirname(os.path.abspath(__file__)))
+notes = json.load(open(os.path.join(root, 'seeded', 'NOTES.json'))) if os.path.exists(os.path.join(root, 'seeded', 'NOTES.json')) else {}
 print('| seeded change | what it does | needs to manifest | caught by (quick tier) |')
 print('|---|---|---|---|')
 for f in sorted(glob.glob(os.path.join(root, 'seeded', '*', 'meta.json'))):
@@ -14,5 +15,5 @@ for f in sorted(glob.glob(os.path.join(root, 'seeded', '*', 'meta.json'))):
     for c, v in m.get('checks', {}).items():
         if v.get('rc') == 1:
             caught.append(c + ' ' + ', '.join(x.replace('mechanism=', '') for x in v.get('mechanisms', [])[:2]))
-    note = m.get('strengthened', '')
+    note = notes.get(name, m.get('strengthened', ''))
     print(f"| {name} | {short(m.get('summary', ''), 170)} | {short(m.get('needs_to_manifest', ''), 150)} | {'; '.join(caught) or 'MISSED'}{' — ' + note if note else ''} |")
